@@ -13,6 +13,9 @@
      kinds of operands; if the TLA+ libraries disagree with Python the run is inconclusive, not a violation.
   4. Binding self-test: one output of a recorded good line per family is corrupted (and one op renamed);
      TLC must reject exactly those lines.
+  API completion: wwNAF (all widths), zzRandMod / zzRandNZMod (generator tapes), the comparison macros of word.h, u64Rev_,
+  the alias macros of qr.h / zm.h / gfp.h / gf2.h (ref/QR.tla; zmAdd ... qrCmp in both editions of their callee),
+  priBaseMod / priExtendPrime / priExtendPrime2 (family "pri", ref/PriBase.tla over ref/Pri.tla).
 """
 import json, math, os, re, random, collections, zlib
 import vlib
@@ -550,5 +553,13 @@ def run(ctx):
               "moduli > 1, deg a >= 1 for ppIsIrred, sequences of linear complexity <= l for ppMinPoly)")
     ev.assume("borrow of zzSub*/zzSubMulW is specified by the identity c - B^n*borrow == a - x of the header of zzSub "
               "(for n = 0 the literal reading 'borrow <- (a < w)' would give 1 where the code returns w)")
+    ev.assume("zzRandMod / zzRandNZMod / priExtendPrime(2) are driven by a deterministic generator tape; zz.h / pri.h do not define how "
+              "the octets become the result, so only the promised range / form (p = 2qar + 1 prime of l bits, l <= 81) and success "
+              "on a seeded tape are judged; priExtendPrime(2) gets trials = SIZE_MAX only where >= 2^12 values of r are admissible "
+              "(with no prime of the form the unbounded search does not return: q = 257, l = 10)")
+    ev.assume("qrCmp compares representations: the number itself in plain / Crandall / Barrett rings, a * R mod mod (R the least "
+              "B^k > mod) in Montgomery rings, as zm.h states; the strategy chosen by zmCreate / gfpCreate is read off the function table")
+    ev.assume("wwNAF: a w-symbol code is read as the w-bit number sign * 2^(w-1) + |a_i| (the only reading of ww.h under which "
+              "the code can be told from the one-symbol code of zero); nothing but the code may be stored in [2n+1]naf")
     ev.assume("qrInv/qrDiv are exercised for odd moduli only (they are zzInvMod/zzDivMod) and their result is left open "
               "for non-invertible elements, as qr.h states")
